@@ -71,7 +71,7 @@ def build(eng, tier):
         # the new directory did not exist, is not '', lives in the existing directory d, and its name (prefix + random
         # characters) differs from every path computed so far - in particular from the destination
         p.assume(z3.And(z3.Not(ex.get(T).z), T.z != VStr("").z, ex.get(d).z, dirname(T.z) == d.z))
-        gd = p.frame.lookup("g_dest")
+        gd = next((f.locals["g_dest"] for f in reversed(p.frames) if "g_dest" in f.locals), None)
         if gd is not None:
             p.assume(T.z != gd.z)
         set_exists(e, p, T, True)
